@@ -21,9 +21,17 @@ _m(
     "(init) set_initial_probe on ProbePixelated.from_array (3-D stack as above, or one 2-D probe) or from_params (80-300 keV, 10-25 mrad, "
     "defocus, aperture radius 1.5-3 px) x weights {None default, equal, steep 10^-k, integers, floats 1e-3..1e3; list or ndarray} x mean "
     "intensity 1e-3..1e6 x optional second set_initial_probe call with another intensity.  "
+    "(obj_multi / tomo_multi) MULTI-INSTANCE: 2-3 models of the same family (ObjectPixelated, resp. tomography ObjectVoxelwise; fields "
+    "<= 6x6, volumes <= 4^3) with independently drawn descriptions as above and, by construction, contrasting settings (one model "
+    "requests identical_slices / positivity, another explicitly declines it; tomography: one requests positivity, another declines or "
+    "is left unconfigured), alive together.  Their operations - construct, write parameters, configure through the constraints setter "
+    "or key by key through add_constraint / add_hard_constraint, set the mask, read obj - are merged in a drawn interleaving (each "
+    "model keeps its own order); optional early reads give 'read A, build/configure B, read A again'; at the end EVERY model is read, "
+    "the first-built last, and each read is judged against that model's OWN requested settings (defaults for keys it never set).  "
     "A case is NON-TRIVIAL when: obj complex/pure_phase - some |raw| > 1 and some |raw| < 1 (in float32); obj potential and tomo - "
     "some raw < 0 and some raw > 0; ortho - M >= 2 and largest pairwise correlation > 0.5; init - M >= 2 with given, not all equal "
-    "weights.  distinct = SHA-1 of the canonical JSON of the whole case.",
+    "weights; obj_multi - the models' effective hard settings differ and at least one model is non-trivial by the obj rule; tomo_multi "
+    "- requested positivity differs between the models and a positivity model has mixed-sign voxels.  distinct = SHA-1 of the canonical JSON of the whole case.",
     [
         "invariants are evaluated by the harness in float64/complex128 on the tensors quantem returns; quantem code is never "
         "re-run as its own reference (the only self-application is the re-application C(C(x)) the property itself names)",
@@ -42,6 +50,8 @@ _m(
         "slice tying is only claimed to tie slices; the mean of phasors is shorter than 1); |o| <= 1 and o >= 0 still are (convexity)",
         "a mask is always supplied when apply_fov_mask or fix_potential_baseline is on via the obj property (as Ptychography.preprocess "
         "does); without any mask those options are exercised through apply_hard_constraints(mask=None)",
+        "multi-instance cases assume what the single-instance claim already implies: a model's constraints are its own state, so "
+        "building or configuring another model must not change them; each model is judged with the same invariants and tolerances",
         "ObjectDIP / ProbeDIP / ProbeParametric are not driven (the property quantifies over raw parameter tensors of the pixelated "
         "models); Gaussian/Butterworth filters are never switched on",
     ],
